@@ -281,7 +281,7 @@ def run(ctx):
             s = rng.choice(["", "+", "-"]) + "".join(rng.choice("0123456789") for _ in range(rng.randrange(0, 6)))
             s += rng.choice(["", ".", ".", "e", "E", "..", "-"]) + "".join(rng.choice("0123456789") for _ in range(rng.randrange(0, 5)))
             s += rng.choice(["", "", "e5", "E-3", "e+", "e", "\n", " ", "_1", "e1e1"])
-        elif mode == 2:  # bool / none spellings with noise
+        elif mode == 2 and rng.random() < 0.75:  # bool / none spellings with noise
             w = rng.choice(list(WORDS))
             w = "".join(c.upper() if rng.random() < 0.4 else c for c in w)
             s = rng.choice(["", "", " ", "\t", "'", '"', "\n"]) + w + rng.choice(["", "", " ", "\n", "'", '"', "x"])
@@ -289,6 +289,10 @@ def run(ctx):
             q = rng.choice("'\"")
             body = "".join(rng.choice(wide) for _ in range(rng.randrange(0, 8)))
             s = rng.choice([q + body + q, q + body, body + q, q + q, q, body + q + "\n", "\\" + body, body + "\\"])
+        elif mode == 2:
+            # look-alikes of the six words: ligatures, long s, Kelvin sign, dotted capital I (case FOLDING would turn some into the word)
+            s = rng.choice(["o\ufb00", "O\ufb00", "fal\u017fe", "FAL\u017fE", "\ufb01", "nu\u217c\u217c", "tr\u00fce", "n\u00f6ne", "o\uff4e", "\u212aelvin",
+                            "\u0130", "nul\u217c", "tru\u0435", "off\u200b", "\ufeffon"]) + rng.choice(["", "", " ", "\n"])
         elif mode == 4:
             s = rng.choice(["-", "_", ".", "", "\n", " ", "--", "__", "..", "+", "e5", "2024-01", "1+1", "--1", "1e", ".e1", "1.e-03", "١٢"[:0]])
         else:
